@@ -641,45 +641,59 @@ func c05Sinks(p *Prog, r *Report) {
 		return
 	}
 	r.Func(FuncName(ac))
-	var reps []*ssa.Call
-	p.instrs(ac, func(b *ssa.BasicBlock, i int, in ssa.Instruction) {
-		if c, ok := in.(*ssa.Call); ok && calleeName(c) == "strings.ReplaceAll" {
-			reps = append(reps, c)
+	// On every abstract path of AddComment (helpers spliced in) the text handed to the block printer
+	// is ReplaceAll(ReplaceAll(<the parameter>, …), …): two chained passes that remove both delimiters.
+	var blockFn *ssa.Function
+	for _, g := range p.FuncsIn(coqPkg) {
+		if FuncName(g) == "coq.*buffer.Block" || strings.HasSuffix(fullName(g), ".buffer).Block") {
+			blockFn = g
 		}
-	})
-	okSan, why := false, fmt.Sprintf("%d ReplaceAll passes", len(reps))
-	if len(reps) == 2 {
-		a0, _ := constString(reps[0].Call.Args[1])
-		a1, _ := constString(reps[0].Call.Args[2])
-		b0, _ := constString(reps[1].Call.Args[1])
-		b1, _ := constString(reps[1].Call.Args[2])
-		// second pass runs on the output of the first
-		chained := reps[1].Call.Args[0] == ssa.Value(reps[0])
-		set := map[string]string{a0: a1, b0: b1}
-		if chained && set["(*"] != "" && set["*)"] != "" && !strings.Contains(set["(*"], "(*") && !strings.Contains(set["*)"], "*)") &&
-			!strings.Contains(set["(*"], "*)") && !strings.Contains(set["*)"], "(*") {
-			okSan = true
+	}
+	ips, okp := p.ipathsKeeping(ac, map[*ssa.Function]bool{blockFn: true})
+	okSan, okFlow, nBlock := okp && blockFn != nil, okp && blockFn != nil, 0
+	why := ""
+	param := ac.Params[len(ac.Params)-1].Name()
+	for _, ip := range ips {
+		for _, e := range ip.Events {
+			if blockFn == nil || e.Callee != fullName(blockFn) || len(e.Args) < 4 {
+				continue
+			}
+			nBlock++
+			txt := strings.TrimSuffix(strings.TrimPrefix(e.Args[3], "["), "]")
+			n2, a2, ok2 := parseCallKey(txt)
+			var n1 string
+			var a1 []string
+			ok1 := false
+			if ok2 && len(a2) == 3 {
+				n1, a1, ok1 = parseCallKey(a2[0])
+			}
+			if !ok2 || !ok1 || n2 != "strings.ReplaceAll" || n1 != "strings.ReplaceAll" || len(a1) != 3 {
+				okSan = false
+				why = fmt.Sprintf("the emitted text is %s", txt)
+				if !strings.Contains(txt, "strings.ReplaceAll(") {
+					okFlow = false
+				}
+				continue
+			}
+			if a1[0] != param {
+				okFlow = false
+			}
+			unq := func(s string) string { return strings.Trim(s, `"`) }
+			set := map[string]string{unq(a1[1]): unq(a1[2]), unq(a2[1]): unq(a2[2])}
+			good := set["(*"] != "" && set["*)"] != "" && !strings.Contains(set["(*"], "(*") && !strings.Contains(set["*)"], "*)") &&
+				!strings.Contains(set["(*"], "*)") && !strings.Contains(set["*)"], "(*")
+			if !good {
+				okSan = false
+			}
+			why = fmt.Sprintf("passes %s→%s then %s→%s", a1[1], a1[2], a2[1], a2[2])
 		}
-		why = fmt.Sprintf("passes %q→%q then %q→%q, chained=%v", a0, a1, b0, b1, chained)
+	}
+	if nBlock == 0 {
+		okSan, okFlow = false, false
+		why = "no path of AddComment reaches the block printer"
 	}
 	r.Check("R05c", "AddComment neutralises comment delimiters by two successive passes", ac.Pos(), okSan,
 		why+": a single simultaneous pass does not re-read rewritten text, so the overlapping sequence `(*)` keeps a `*)` and closes the Coq comment early")
-	// the sanitised text (and nothing else from the parameter) reaches the block
-	okFlow := false
-	p.instrs(ac, func(b *ssa.BasicBlock, i int, in ssa.Instruction) {
-		if c, ok := in.(*ssa.Call); ok && strings.HasSuffix(calleeName(c), ".buffer).Block") && len(reps) > 0 {
-			for _, v := range flowOperands(c.Call.Args[3]) {
-				if v == ssa.Value(reps[len(reps)-1]) {
-					okFlow = true
-				}
-			}
-			for _, v := range flowOperands(c.Call.Args[3]) {
-				if v == ssa.Value(ac.Params[1]) {
-					okFlow = false
-				}
-			}
-		}
-	})
 	r.Check("R05c", "AddComment emits only the sanitised text", ac.Pos(), okFlow, "the text placed between `(*` and `*)` must be the output of the last sanitising pass")
 	hasQuoteSan := false
 	p.instrs(ac, func(b *ssa.BasicBlock, i int, in ssa.Instruction) {
